@@ -249,6 +249,9 @@ func WindowFrameSet(partition Partition, expr parser.AnalyticClause) []WindowFra
 		return []WindowFrame{{Low: 0, High: len(partition) - 1, Records: indices}}
 	}
 
+	// frameIndex returns a position from -1 (before the first row) to length (after the last row).
+	// All positions outside of the partition are equivalent, and an offset can be any integer, so the
+	// position is not calculated beyond these limits.
 	var frameIndex = func(current int, length int, framePosition parser.WindowFramePosition) int {
 		var idx int
 
@@ -258,12 +261,16 @@ func WindowFrameSet(partition Partition, expr parser.AnalyticClause) []WindowFra
 		case parser.PRECEDING:
 			if !framePosition.Unbounded.IsEmpty() {
 				idx = 0
+			} else if current < framePosition.Offset {
+				idx = -1
 			} else {
 				idx = current - framePosition.Offset
 			}
 		case parser.FOLLOWING:
 			if !framePosition.Unbounded.IsEmpty() {
 				idx = length - 1
+			} else if length-current <= framePosition.Offset {
+				idx = length
 			} else {
 				idx = current + framePosition.Offset
 			}
